@@ -148,10 +148,11 @@ impl<T: BitRead> PackedRead for T {
         lower_bound: i64,
         upper_bound: i64,
     ) -> Result<i64, Error> {
-        let range = upper_bound - lower_bound;
+        // the range of two i64 bounds fits u64 but not i64
+        let range = upper_bound.wrapping_sub(lower_bound) as u64;
         if range > 0 {
             Ok(lower_bound
-                + self.read_non_negative_binary_integer(None, Some(range as u64))? as i64)
+                .wrapping_add(self.read_non_negative_binary_integer(None, Some(range))? as i64))
         } else {
             Ok(lower_bound)
         }
@@ -460,12 +461,13 @@ impl<T: BitWrite> PackedWrite for T {
         if value < lower_bound || value > upper_bound {
             return Err(ErrorKind::ValueNotInRange(value, lower_bound, upper_bound).into());
         }
-        let range = upper_bound - lower_bound;
+        // the range of two i64 bounds fits u64 but not i64
+        let range = upper_bound.wrapping_sub(lower_bound) as u64;
         if range > 0 {
             self.write_non_negative_binary_integer(
                 None,
-                Some(range as u64),
-                (value - lower_bound) as u64,
+                Some(range),
+                value.wrapping_sub(lower_bound) as u64,
             )
         } else {
             Ok(())
